@@ -52,6 +52,24 @@ let () =
       if n >= 2 then sec (Printf.sprintf "TU%d_%d" a b) (rows e1 lu1 shifted (b - a + 1));
       diag "G" e (zl, zu) (fun k -> (if k >= 0 then kstored 0 k else kstored (-k) 0) && not (kind = 3 && k > 0) && not (kind = 4 && k < 0));
       if n >= 2 then sec (Printf.sprintf "U%d_%d" a b) (rows e (zl, zu) shifted (b - a + 1));
+      if n >= 2 then begin
+        let mm = b - a + 1 in
+        let sb = int_of_z (sub_base zoff (z_of_int a)) in
+        let okk k = (if k >= 0 then kstored 0 k else kstored (-k) 0) && not (kind = 3 && k > 0) && not (kind = 4 && k < 0) in
+        let kw = ref 0 and have = ref false in
+        List.iter (fun k ->
+          if okk k then begin
+            if not !have || (k <> 0 && (!kw = 0 || (k < 0 && k > !kw))) then (kw := k; have := true);
+            let len = int_of_z (diag_len (z_of_int mm) (z_of_int k)) in
+            let bs = diag_base e zl zu (z_of_int mm) zoff (z_of_int k) in
+            sec (Printf.sprintf "UG%d" k) (List.map (fun t -> get data (z_of_int (sb + int_of_z bs + t * (off + 1)))) (range 0 len))
+          end) (range (-(mm-1)) mm);
+        let d4 = Array.copy data in
+        let len = int_of_z (diag_len (z_of_int mm) (z_of_int !kw)) in
+        let bs = diag_base e zl zu (z_of_int mm) zoff (z_of_int !kw) in
+        List.iter (fun t -> let p = sb + int_of_z bs + t * (off + 1) in if p >= 0 && p < Array.length d4 then d4.(p) <- -7) (range 0 len);
+        sec (Printf.sprintf "UW%d" !kw) (rows e (zl, zu) (get d4) n)
+      end;
       sec "E" (List.map (fun x -> 3 * x) m);
       sec "F" (List.map2 ( + ) t m);
       let d2 = mk () in
